@@ -16,7 +16,7 @@ META = {
     "rule": (
         "Generated networks (<=7 nodes quick / <=9 thorough, <=16 arcs, capacities 0-4, costs 0-6 or potential-shifted "
         "negative costs without negative cycles; parallel and anti-parallel arcs; uniform random and a cancellation-trap "
-        "family) run through min_cost_flow (two-terminal, demand 0..maxflow+2), network_simplex (balanced multi-node "
+        "family; a fifth of the cases with offsets of 1e6/1e9 on the costs, exact in floats) run through min_cost_flow (two-terminal, demand 0..maxflow+2), network_simplex (balanced multi-node "
         "supplies; distinct (u,v) pairs for the full check, parallel arcs as a cost-only class) and both on shared "
         "instances; solve_assignment on integer matrices <=5x5 of either sign. Oracle: harness successive-shortest-path "
         "min-cost flow on an explicit arc list (self-tested against brute force), permutation enumeration for assignment; "
